@@ -203,7 +203,7 @@ def force_stage2(rng, st):
 S2_TABLES = (0x50000, 0x3000)
 
 
-def stage2_map(rng, case):
+def stage2_map(rng, case, extra_pages=(), keep_stage1=False):
     """a valid three-level stage-2 table (VTCR.SL0 = 1, T0SZ = 0: 32-bit IPA space) that identity-maps the pages holding the vectors and the code
     read/write and gives the data pages a generated fate - unmapped, no access, read-only, access flag clear, or read/write - so that the instruction
     is fetched and its own data access takes the stage-2 fault (reported to Hyp mode with the load/store instruction syndrome)"""
@@ -217,7 +217,7 @@ def stage2_map(rng, case):
     ent[base] = (base + 0x1000) | 3                       # level 1, entry 0 -> level-2 table
     ent[base + 0x1000] = (base + 0x2000) | 3              # level 2, entry 0 -> level-3 table (first 2 MiB)
     code_page = (st['R.PC'] >> 12) & 0x1FF
-    for pg in {0, code_page, (code_page + 1) & 0x1FF, base >> 12, (base >> 12) + 1, (base >> 12) + 2}:
+    for pg in {0, code_page, (code_page + 1) & 0x1FF, base >> 12, (base >> 12) + 1, (base >> 12) + 2} | set(extra_pages):
         ent[base + 0x2000 + 8 * pg] = page(pg << 12, 3)
     fate = rng.choice(('invalid', 'noaccess', 'readonly', 'af0', 'rw', 'invalid', 'readonly'))
     for pg in (DATA[0] >> 12, (DATA[0] >> 12) + 1):
@@ -232,7 +232,8 @@ def stage2_map(rng, case):
     st['vtcr'] = (rng.getrandbits(6) << 8) | (1 << 6)
     st['vttbr'] = base
     st['scr'] = st.get('scr', 0) | 1
-    st['sctlr'] = st.get('sctlr', 0) & ~1                 # stage 1 off: IPA = VA
+    if not keep_stage1:
+        st['sctlr'] = st.get('sctlr', 0) & ~1             # stage 1 off: IPA = VA
     return fate
 
 
